@@ -253,7 +253,7 @@ class FaultModel:
             hdr = [st.exc] if st.exc is not None else []
             # evaluating the constructor expression: nested calls ignored (f-strings / str())
             return out
-        suspends = any(contains_await(h) for h in hdr) or isinstance(st, (ast.AsyncFor, ast.AsyncWith))
+        suspends = any(self._may_suspend(h, u) for h in hdr) or isinstance(st, (ast.AsyncFor, ast.AsyncWith))
         if suspends:
             out.add(CANCEL)
             if self._inside_asyncio_timeout(st):
@@ -272,6 +272,25 @@ class FaultModel:
                 elif isinstance(n, ast.Await):
                     out |= self.await_raises(n, u)
         return out
+
+    def _may_suspend(self, root: ast.AST, u: Unit) -> bool:
+        """An await in *root* that can actually suspend: `await <resolved repo coroutine>(...)` suspends only if that
+        coroutine may (its escape set contains CancelledError); any other awaitable may."""
+        if not contains_await(root):
+            return False
+        for n in self._walk_expr(root):
+            if isinstance(n, ast.Await):
+                v = n.value
+                if isinstance(v, ast.Call):
+                    r = self.resolve_call(v, u)
+                    if isinstance(r, Unit) and r.is_async:
+                        if CANCEL in self.escape.get(r.key, frozenset()):
+                            return True
+                        continue
+                return True
+            if isinstance(n, ast.comprehension) and n.is_async:
+                return True
+        return False
 
     def _walk_expr(self, root: ast.AST):
         stack = [root]
